@@ -27,12 +27,18 @@ fn msg_pool() -> Vec<(String, Vec<u8>)> {
         ("text130".into(), Msg { id: 4, op: Op::ModifyResp(res(&"t".repeat(130))), controls: None }),
         ("text300".into(), Msg { id: 70000, op: Op::ExtResp(res(&"u".repeat(300)), Some(b"1.2".to_vec()), Some(vec![0; 5])), controls: None }),
         ("ref".into(), Msg { id: 5, op: Op::SearchRef(vec![b"ldap://x".to_vec()]), controls: None }),
+        // unsolicited notification (message ID 0)
+        ("notice0".into(), Msg { id: 0, op: Op::ExtResp(Res::new(52, "", "bye"), Some(b"1.3.6.1.4.1.1466.20036".to_vec()), None), controls: None }),
     ];
     let mut out: Vec<(String, Vec<u8>)> = v.drain(..).map(|(n, m)| (n, m.encode())).collect();
     // non-minimal length forms of the minimal message
     let m = Msg { id: 6, op: Op::AddResp(Res::new(0, "", "")), controls: None };
     out.push(("nonmin".into(), ber::encode_forms(&m.to_tlv(), &mut |k| if k % 2 == 0 { ber::LenForm::Long(2) } else { ber::LenForm::Long(1) })));
     out
+}
+
+fn huge_msg() -> Vec<u8> {
+    Msg { id: 10, op: Op::SearchEntry { dn: b"cn=huge".to_vec(), attrs: vec![(b"jpegPhoto".to_vec(), vec![vec![0x5a; 70_000]])] }, controls: None }.encode()
 }
 
 fn big_msg() -> Vec<u8> {
@@ -131,8 +137,19 @@ fn mk_seq(parts: &[&(String, Vec<u8>)]) -> Seq {
         bytes.extend_from_slice(&p.1);
         bounds.push(bytes.len());
     }
-    let whole = run_chunks(&bytes, &[]).expect("whole stream decodes").remove(0).0;
-    assert_eq!(whole.len(), parts.len(), "verif-machinery: the whole stream must decode to all messages");
+    // what a single big read must yield, computed with the independent decoder
+    let mut whole = vec![];
+    for p in parts {
+        let t = ber::decode_all(&p.1).expect("pool message is BER");
+        let m = Msg::from_tlv(&t, &mut vec![]).expect("pool message is an LDAPMessage");
+        let mut c = ber::encode(&crate::vcore::msg::op_tlv(&m.op));
+        for ctl in m.controls.clone().unwrap_or_default() {
+            c.extend_from_slice(&ctl.oid);
+            c.push(ctl.crit.unwrap_or(false) as u8);
+            c.extend_from_slice(ctl.val.as_deref().unwrap_or(&[0xee]));
+        }
+        whole.push((m.id as i32, c));
+    }
     Seq { name: parts.iter().map(|p| p.0.clone()).collect::<Vec<_>>().join("+"), bytes, bounds, whole }
 }
 
@@ -193,11 +210,19 @@ pub fn run(tier: Tier) -> i32 {
     let big = big_msg();
     let small = &pool[0];
     let bigname = ("big9000".to_string(), big.clone());
-    let bigs = vec![mk_seq(&[&bigname]), mk_seq(&[small, &bigname, small]), mk_seq(&[&bigname, &bigname])];
+    let hugename = ("huge70000".to_string(), huge_msg());
+    let entry = &pool[2];
+    let bigs = vec![
+        mk_seq(&[&bigname]),
+        mk_seq(&[small, &bigname, small]),
+        mk_seq(&[&bigname, &bigname]),
+        mk_seq(&[&hugename, entry, small]),
+        mk_seq(&[small, &hugename, &bigname]),
+    ];
     for s in &bigs {
         let l = s.bytes.len();
         judge(&rep, s, &[], &evals);
-        let mut marks: Vec<usize> = vec![1, 2, 3, 8191, 8192, 8193, l - 2, l - 1];
+        let mut marks: Vec<usize> = vec![1, 2, 3, 8191, 8192, 8193, 65535, 65536, 65537, l - 2, l - 1];
         for b in &s.bounds {
             for d in [-2i64, -1, 0, 1, 2] {
                 marks.push((*b as i64 + d) as usize);
